@@ -24,6 +24,9 @@ CHECKS.update({
 "C10":("fault_enumeration","Supervision trees (depth <= 3, <= 12 processes: supervisors of all types, pools, leaves, optionally under an application) hit by faults enumerated over which process x how (kill, error, panic, normal, shutdown) x when (during start-up, steady, back to back into an ongoing restart/shutdown) and ended by killing the root, ApplicationStop(Force) or graceful Node.Stop; orphan audit at quiescence, stop-returns-after and stop-must-return."),
 "C19":("exploration","act.Pool with drawn size / worker mailbox / worker speed under concurrent numbered sends and calls, worker kills and panics, AddWorkers/RemoveWorkers; at-most-once handling, exact accounting without crashes, bounded loss with crashes, no loss for items sent after the last crash completed, sender/ref preservation, High-priority handled by the pool, ring size restored."),
 })
+CHECKS.update({
+"C20":("exploration","Generated crontab specs (lists, ranges, steps, L, xL, x#n, both day fields) in four time zones, node started at drawn instants 2000-2004 (near sparse matches, month ends, 29 Feb, DST changes), minute timer run on the simulated clock for hours to days with jobs added/disabled/enabled/removed midway; fired minutes, MessageCron.Time and JobSchedule compared with an independent crontab evaluator; malformed specs must be rejected."),
+})
 NA={}
 def chk(pid):
     level,text=CHECKS[pid]
